@@ -27,7 +27,7 @@ type c08Desc struct {
 	NExt    int    `json:"extensions"`
 }
 
-var c08Prefixes = []string{"none", "healthy1", "healthy3", "initerror", "rtcrash", "rtcrashidle", "extcrash", "timeout", "extiniterror", "extexiterror", "internal", "doublenext", "midinit", "useragent", "oversize", "extstall", "shutdownexiterror"}
+var c08Prefixes = []string{"none", "healthy1", "healthy3", "initerror", "rtcrash", "rtcrashidle", "extcrash", "timeout", "extiniterror", "extexiterror", "internal", "doublenext", "midinit", "useragent", "oversize", "extstall", "shutdownexiterror", "inittimeout"}
 var c08Suffixes = []string{"healthy2", "subs", "initerror", "crash", "errorresp"}
 
 func genC08(tier string, seed int64) []Case {
@@ -58,6 +58,16 @@ func genC08(tier string, seed int64) []Case {
 			}
 		}
 	}
+	// suffix in which an extension of the first new generation dies before it registers: noticed at once, as on a fresh instance
+	for _, pt := range [][2]string{{"healthy1", "explicit"}, {"timeout", "auto"}, {"rtcrash", "auto"}, {"extcrash", "auto"}, {"healthy3", "explicit"}} {
+		for n := 1; n <= 2; n++ {
+			add(c08Desc{Prefix: pt[0], Trigger: pt[1], Suffix: "extearly", NExt: n})
+		}
+	}
+	// an invocation that expired while the initialisation hung, then (after healthy service) a crash: the crash is
+	// reported as what it is, as on a fresh instance
+	add(c08Desc{Prefix: "inittimeout", Trigger: "auto", Suffix: "crash", NExt: 0})
+	add(c08Desc{Prefix: "inittimeout", Trigger: "auto", Suffix: "crash", NExt: 1})
 	add(c08Desc{Prefix: "midinit", Trigger: "explicit", Suffix: "crash", NExt: 1}) // known finding (see known_findings.jsonl)
 	add(c08Desc{Prefix: "healthy1", Trigger: "explicit", Suffix: "healthy2", Late: "afterRelease", LateAt: "received", NExt: 0})
 	add(c08Desc{Prefix: "timeout", Trigger: "auto", Suffix: "healthy2", Late: "afterDispatch", LateAt: "received", NExt: 0})
@@ -159,7 +169,7 @@ func c08Instance(c *Ctx, d c08Desc, _ bool) *c08Result {
 		exts = append(exts, fmt.Sprintf("ext%d", i))
 	}
 	timeout := int64(6000)
-	if d.Prefix == "timeout" || d.Prefix == "extstall" {
+	if d.Prefix == "timeout" || d.Prefix == "extstall" || d.Prefix == "inittimeout" {
 		timeout = 300
 	}
 	w, err := NewWorld(vh.Config{TimeoutMs: timeout, Extensions: exts, CustomerEnv: map[string]string{"CUST": "v=1"}})
@@ -182,6 +192,9 @@ func c08Instance(c *Ctx, d c08Desc, _ bool) *c08Result {
 		return "prefix", gen
 	}
 	sufRtCount := 0
+	idleNow := make(chan struct{})
+	var idleOnce sync.Once
+	sufExt0Count := 0
 	respond := func(pt *vh.Party, ev *vh.Resp) {
 		pt.Respond(ev.ReqID(), append([]byte("R:"), ev.Body...), nil)
 	}
@@ -234,6 +247,13 @@ func c08Instance(c *Ctx, d c08Desc, _ bool) *c08Result {
 					for time.Now().Before(dl) && w.E.RuntimeState() != "Ready" {
 						time.Sleep(200 * time.Microsecond)
 					}
+					// "idle" = the invocation has been answered AND has returned to its caller (a crash
+					// between the two is a crash during the invocation: another history)
+					select {
+					case <-idleNow:
+					case <-time.After(3 * time.Second):
+					case <-p.Ctx.Done():
+					}
 					time.Sleep(2 * time.Millisecond)
 					p.RequestExit(vh.Exit{Signal: 11})
 				}()
@@ -241,6 +261,9 @@ func c08Instance(c *Ctx, d c08Desc, _ bool) *c08Result {
 			}
 		case "timeout":
 			o.Handle = func(p *vh.Proc, pt *vh.Party, n int, ev *vh.Resp) *vh.Exit { return Stall(p) }
+		case "inittimeout":
+			// the initialisation hangs: the prefix invocation expires while still waiting for it
+			o.BeforeFirstNext = func(p *vh.Proc, pt *vh.Party) *vh.Exit { return Stall(p) }
 		case "internal":
 			o.BeforeFirstNext = func(p *vh.Proc, pt *vh.Party) *vh.Exit {
 				ip := vh.NewParty("ext:internal-prefix", w.E.Addr, w.E.Log, p.Ctx)
@@ -284,7 +307,17 @@ func c08Instance(c *Ctx, d c08Desc, _ bool) *c08Result {
 					ev = []string{"INVOKE"}
 				}
 			}
-			return vh.ExecPlan{Behave: w.ExtLoop(ExtOpts{Events: ev, Features: "accountId"})}
+			o := ExtOpts{Events: ev, Features: "accountId"}
+			if d.Suffix == "extearly" && idx == "0" {
+				mu.Lock()
+				k := sufExt0Count
+				sufExt0Count++
+				mu.Unlock()
+				if k == 0 {
+					o.BeforeRegister = func(p *vh.Proc, pt *vh.Party) *vh.Exit { return &vh.Exit{Code: 6} }
+				}
+			}
+			return vh.ExecPlan{Behave: w.ExtLoop(o)}
 		}
 		o := ExtOpts{Events: []string{"INVOKE", "SHUTDOWN"}}
 		if idx == "1" {
@@ -435,6 +468,7 @@ func c08Instance(c *Ctx, d c08Desc, _ bool) *c08Result {
 				c.Check(false, "prefix_completes", "C08/prefix-hang/"+d.Prefix, "prefix invocation never returned", nil)
 				return nil
 			}
+			idleOnce.Do(func() { close(idleNow) })
 			// wait for the idle crash
 			dl := time.Now().Add(5 * time.Second)
 			for time.Now().Before(dl) {
@@ -498,7 +532,7 @@ func c08Instance(c *Ctx, d c08Desc, _ bool) *c08Result {
 	sufStart := int64(w.E.Log.Len())
 	res := &c08Result{Parties: map[string][]string{}, State: stStr}
 	nInv := 2
-	if d.Suffix == "initerror" || d.Suffix == "crash" {
+	if d.Suffix == "initerror" || d.Suffix == "crash" || d.Suffix == "extearly" {
 		nInv = 3
 	}
 	for i := 0; i < nInv; i++ {
@@ -582,6 +616,11 @@ func c08Instance(c *Ctx, d c08Desc, _ bool) *c08Result {
 		case e.Src == "sup" && e.Kind == "exec":
 			episode++
 		case e.Src == "sup" && (e.Kind == "term" || e.Kind == "kill"):
+			if d.Suffix == "extearly" && strings.HasPrefix(e.Op, "extension-") && strings.HasSuffix(genOff(e.Op), "+0") {
+				// whether the sibling of the extension that died at start is killed or was not even registered
+				// yet / leaves by itself on the SHUTDOWN event is timing dependent
+				continue
+			}
 			if !strings.Contains(genOff(e.Op), "+-") {
 				supOther = append(supOther, e.Kind+"/"+genOff(e.Op))
 			}
@@ -605,7 +644,7 @@ func c08Instance(c *Ctx, d c08Desc, _ bool) *c08Result {
 			res.Parties[src] = append(res.Parties[src], entry)
 		}
 	}
-	if d.Suffix == "crash" || d.Suffix == "initerror" {
+	if d.Suffix == "crash" || d.Suffix == "initerror" || d.Suffix == "extearly" {
 		// what the extensions of the generation that dies in the suffix still manage to read before they
 		// are torn down is timing dependent: only their existence (exec requests) is compared
 		for k := range res.Parties {
@@ -645,7 +684,7 @@ func c08Instance(c *Ctx, d c08Desc, _ bool) *c08Result {
 			}
 		}
 	}
-	if d.Suffix == "crash" || d.Suffix == "initerror" {
+	if d.Suffix == "crash" || d.Suffix == "initerror" || d.Suffix == "extearly" {
 		for k := range res.Parties {
 			if strings.Contains(k, "extension-") && strings.HasSuffix(k, "+0") {
 				delete(res.Parties, k)
@@ -674,6 +713,14 @@ func c08Instance(c *Ctx, d c08Desc, _ bool) *c08Result {
 	}
 	if staleRequestLeak(w) {
 		c.Taint("stale-inflight-request")
+	}
+	// another face of the same recorded defect: the register request of a killed extension, accepted by the server
+	// but applied only after the reset, finds no external agent of that name any more and is taken for an
+	// INTERNAL registration; launching the next generation's extension of that name then collides
+	for _, cl := range res.Callers {
+		if strings.Contains(cl, "ErrAgentNameCollision") && unackedOldRegister(w, sufGen0) {
+			c.Taint("stale-inflight-request")
+		}
 	}
 	c.SetHooks(hk.Arrived())
 	res.log = sampleLog(w, 260)
@@ -733,4 +780,29 @@ func sortCSV(s string) string {
 	p := strings.Split(s, ",")
 	sort.Strings(p)
 	return strings.Join(p, ",")
+}
+
+// unackedOldRegister: a register call of a process started before generation gen0 never got its answer
+// (the process was killed while the request was in flight).
+func unackedOldRegister(w *World, gen0 int) bool {
+	evs := w.E.Log.Snapshot()
+	calls := map[int64]vh.Event{}
+	for _, e := range evs {
+		if e.Kind == "call" && e.Op == "register" {
+			calls[e.Seq] = e
+		}
+	}
+	for _, e := range evs {
+		if e.Kind == "ret" && e.Op == "register" && e.Status == 0 {
+			src := calls[e.Ref].Src
+			if i := strings.LastIndex(src, "-"); i >= 0 {
+				var g int
+				fmt.Sscanf(src[i+1:], "%d", &g)
+				if g > 0 && g < gen0 {
+					return true
+				}
+			}
+		}
+	}
+	return false
 }
